@@ -1,0 +1,15 @@
+//! Verification hooks for the socket send / receive path (relay receive loop, mapped
+//! addresses, send dispatch, IP transport configuration).  Only compiled with
+//! `--cfg iroh_verif`; used by the conformance harness of the model-based checks.
+//! Re-exports of thin wrappers defined next to the crate-private items they expose.
+#![allow(missing_docs, missing_debug_implementations)]
+
+pub use crate::socket::{
+    mapped_addrs::verif_hooks::{AddrMaps, HOST_SPACE, classify},
+    transports::{
+        FourTuple,
+        verif_hooks::{CustomSentLog, VerifSender},
+        verif_ip::BindSpec,
+        verif_relay::{FedRelayTransport, RelaySentLog},
+    },
+};
